@@ -1480,6 +1480,9 @@ def py_has_type(va, t, stats=None):
     return None
 
 
+_SUBCFG_STORE = [None]     # spec store {section: enc body} the judged case ran against; None = the real config_spec.yaml
+
+
 def subconfig_ok(param, t, depth=0):
     """subconfig(section[,base...]): the result is a dict that contains every non-private key the sub-section declares
     (own declarations first, bases fill in: independent merge of the real spec), each of its declared type.  pow2 / gain
@@ -1490,11 +1493,20 @@ def subconfig_ok(param, t, depth=0):
         return True          # `if item is None: return {}`: the empty dict is the subconfig type's "not given"
     if not param or depth > 3:
         return None
-    rs = real_spec()
     names = param.split(",")
-    if any(n not in rs["spec"] or not isinstance(rs["spec"][n], dict) for n in names):
-        return None
-    merged = merged_spec_py([enc_spec(rs["spec"][n]) for n in names])
+    ctx = _SUBCFG_STORE[0]
+    if ctx is not None:
+        # the case ran against its OWN spec store (synthetic sections; one of them may be called `device` like a real
+        # section): a sub-config is judged against the sections of that store, never against config_spec.yaml
+        bodies = [tree_get(ctx, n) for n in names]
+        if any(b is None for b in bodies):
+            return None
+        merged = merged_spec_py(bodies)
+    else:
+        rs = real_spec()
+        if any(n not in rs["spec"] or not isinstance(rs["spec"][n], dict) for n in names):
+            return None
+        merged = merged_spec_py([enc_spec(rs["spec"][n]) for n in names])
     have = {json.dumps(k): v for k, v in t[1]}
     verdict = True
     for k, e in merged.items():
@@ -2102,6 +2114,15 @@ def section_keys_plain(case, mk):
 
 
 def oracle_section(case, out):
+    # a synthetic case ran against the store {sec0, sec1, ...}; a real-spec case against config_spec.yaml
+    _SUBCFG_STORE[0] = None if "real" in case else {"sec%d" % j: sp for j, sp in enumerate(case.get("specs", []))}
+    try:
+        return _oracle_section(case, out)
+    finally:
+        _SUBCFG_STORE[0] = None
+
+
+def _oracle_section(case, out):
     fails = []
     if out.get("spec_changed"):
         fails.append({"sig": "spec-modified", "what": "config_spec differs after validate_config"})
@@ -2296,10 +2317,14 @@ def _step_case(case, j):
 
 def oracle_store(case, out):
     fails = []
-    for j, o in enumerate(out["steps"]):
-        for f in oracle_section(_step_case(case, j), o):
-            fails.append({"sig": f["sig"], "what": "step %d of %d (%s): %s" % (j + 1, len(out["steps"]),
-                                                                         "+".join(case["steps"][j]["names"]), f["what"])})
+    _SUBCFG_STORE[0] = {n: sp for n, sp in case["store"]}
+    try:
+        for j, o in enumerate(out["steps"]):
+            for f in _oracle_section(_step_case(case, j), o):
+                fails.append({"sig": f["sig"], "what": "step %d of %d (%s): %s" % (j + 1, len(out["steps"]),
+                                                                             "+".join(case["steps"][j]["names"]), f["what"])})
+    finally:
+        _SUBCFG_STORE[0] = None
     return fails
 
 
@@ -2708,7 +2733,11 @@ def oracle_deep(case, out):
         fails.append({"sig": "spec-modified", "what": "config_spec differs after a nested validate_config"})
     if "ok" in out and out.get("root"):
         rootmap = {n: b for n, b in out["root"]}
-        deep_walk(rootmap, case["names"], out["ok"], case["allow_invalid"], [], fails, case["add_missing"], case["source"])
+        _SUBCFG_STORE[0] = rootmap        # the store the code used (synthetic or the closure of the real sections)
+        try:
+            deep_walk(rootmap, case["names"], out["ok"], case["allow_invalid"], [], fails, case["add_missing"], case["source"])
+        finally:
+            _SUBCFG_STORE[0] = None
     return fails
 
 
